@@ -250,6 +250,9 @@ unsigned int irc_pton(irc_inaddr *addr, unsigned int *bits, const char *input, i
                 *bits = 128;
             goto finish;
         }
+        /* The eighth group ended at a ':' (as in "1:2:3:4:5:6:7::"). */
+        if (bits)
+            *bits = 128;
     finish:
         /* Shift stuff after "::" up and fill middle with zeros. */
         if (cpos < 8) {
